@@ -861,7 +861,16 @@ Definition encoder_census : list (string * bool) :=
     ("LinkLayerAddress.marshal", false); ("MTU.marshal", false); ("PrefixInformation.marshal", false);
     ("RawOption.marshal", false); ("RecursiveDNSServer.marshal", false); ("RouteInformation.marshal", false);
     ("RouterAdvertisement.marshal", false); ("RouterSolicitation.marshal", false);
-    ("UDP.AppendPayload", true); ("UDP.SetPayload", true); ("encodeName", false); ("marshalOptions", false) ].
+    ("UDP.AppendPayload", true); ("UDP.SetPayload", true); ("encode", false) ].
+(* unexported helpers called solely by the functions above (encodeName by EncodeDNSQuery / encode, marshalOptions
+   by the RA / RS marshal methods, any helper a refactoring extracts from an encoder) inherit the classification
+   of their callers: the harness counts them (stats named census.inherited.NAME) and does not list them. *)
+
+(* package-level variables mentioned by the encoders and by the package functions they call: error values and
+   the IPv4 zero address only, all read-only; no pool, no scratch buffer, no counter.  (Encoders are functions of
+   their arguments and of the destination buffer: theorem C03_encode_deterministic.) *)
+Definition encoder_globals : string :=
+  "DNSSearchList.marshal:errDNSSLBadDomains+errDNSSLNoDomains;EncodeDHCP4:IPv4zero;EncodeIP4:IPv4zero;Ether.AppendPayload:ErrPayloadTooBig;IP4.AppendPayload:ErrPayloadTooBig;IP6.AppendPayload:ErrPayloadTooBig;RecursiveDNSServer.marshal:errRDNSSNoServers;UDP.AppendPayload:ErrPayloadTooBig".
 
 (* ---------------- dispatch ---------------- *)
 Definition dispatch (kind : string) (args : list string) : string :=
@@ -976,6 +985,8 @@ Definition dispatch (kind : string) (args : list string) : string :=
     end
   else if String.eqb kind "census" then
     out3 (join "," (map fst encoder_census)) "-" "-"
+  else if String.eqb kind "globals" then
+    out3 encoder_globals "-" "-"
   else if String.eqb kind "consts" then
     match args with
     | [n] => out3 (lookup_const n model_consts) "-" "-"
@@ -1035,8 +1046,17 @@ Definition dispatch (kind : string) (args : list string) : string :=
     end
   else BADARGS.
 
+(* kind conc: the case [k args] executed while other goroutines run encoders on buffers of their own.  The
+   model of an encoder call has no input but its arguments and the destination buffer
+   (C03_encode_deterministic), so the expected observation is that of the sequential case. *)
 Definition dispatch_line (l : string) : string :=
   match words l with
-  | k :: args => dispatch k args
+  | k :: args =>
+      if String.eqb k "conc" then
+        match args with
+        | k' :: args' => dispatch k' args'
+        | [] => BADARGS
+        end
+      else dispatch k args
   | [] => BADARGS
   end.
